@@ -14,6 +14,8 @@ import (
 	"net"
 	"net/netip"
 	"net/url"
+	"os"
+	"path/filepath"
 	"strconv"
 	"sync"
 	"sync/atomic"
@@ -26,6 +28,7 @@ import (
 	"github.com/AdguardTeam/AdGuardDNS/verif/vkit"
 	"github.com/AdguardTeam/golibs/netutil"
 	"github.com/c2h5oh/datasize"
+	"github.com/miekg/dns"
 	"google.golang.org/grpc"
 	"google.golang.org/grpc/metadata"
 )
@@ -51,7 +54,7 @@ func (b *deliveryBackend) GetDNSProfiles(req *backendpb.DNSProfilesRequest, srv 
 			return err
 		}
 	}
-	srv.SetTrailer(metadata.Pairs("sync_time", strconv.FormatInt(1_700_000_000_000+ep*1000, 10)))
+	srv.SetTrailer(metadata.Pairs("sync_time", strconv.FormatInt(time.Now().UnixMilli()+ep, 10)))
 	return nil
 }
 
@@ -82,7 +85,7 @@ func cidrs(ps []netip.Prefix) []*backendpb.CidrRange {
 // toProto is what the backend sends for a profile.
 func toProto(p *profCfg) *backendpb.DNSProfile {
 	pb := &backendpb.DNSProfile{
-		DnsId: p.ID, FilteringEnabled: true, QueryLogEnabled: true, IpLogEnabled: true,
+		DnsId: p.ID, FilteringEnabled: !p.FilteringOff, QueryLogEnabled: true, IpLogEnabled: true,
 		BlockingMode: &backendpb.DNSProfile_BlockingModeNullIp{BlockingModeNullIp: &backendpb.BlockingModeNullIP{}},
 		Access: &backendpb.AccessSettings{
 			Enabled:       !p.Empty,
@@ -92,7 +95,7 @@ func toProto(p *profCfg) *backendpb.DNSProfile {
 		},
 	}
 	for _, d := range p.Devices {
-		ds := &backendpb.DeviceSettings{Id: d.ID, Name: "device " + d.ID, FilteringEnabled: true}
+		ds := &backendpb.DeviceSettings{Id: d.ID, Name: "device " + d.ID, FilteringEnabled: !d.FilteringOff}
 		if d.Linked.IsValid() {
 			ds.LinkedIp, _ = d.Linked.MarshalBinary()
 		}
@@ -184,6 +187,50 @@ func addBoundaryNets(rng *rand.Rand, c *config) (hasMapped bool) {
 		}
 	}
 	return hasMapped
+}
+
+// shapeSingleKind reduces the access settings of about half of the profiles to
+// exactly one kind of list.
+func shapeSingleKind(rng *rand.Rand, c *config) {
+	for pi := range c.Profiles {
+		p := &c.Profiles[pi]
+		if p.Empty || rng.IntN(5) < 2 {
+			continue
+		}
+		src := fmt.Sprintf("p%d", pi)
+		shape := []string{"asn-blocks-only", "net-blocks-only", "names-only", "allowlists-only"}[rng.IntN(4)]
+		an, bn, aa, ba, ru := p.AllowedNets, p.BlockedNets, p.AllowedASN, p.BlockedASN, p.Rules
+		p.AllowedNets, p.BlockedNets, p.AllowedASN, p.BlockedASN, p.Rules = []netip.Prefix{}, []netip.Prefix{}, []uint32{}, []uint32{}, []ruleSpec{}
+		switch shape {
+		case "asn-blocks-only":
+			p.BlockedASN = ba
+			if len(ba) == 0 {
+				p.BlockedASN = genASNs(rng, 1+rng.IntN(2))
+			}
+		case "net-blocks-only":
+			p.BlockedNets = bn
+			if len(bn) == 0 {
+				q := genNet(rng, c.regs, nil)
+				p.BlockedNets = []netip.Prefix{q}
+				c.addNetCands(q, src, rng)
+			}
+		case "names-only":
+			p.Rules = ru
+			for len(p.Rules) == 0 || p.Rules[0].Exc {
+				rs := genRule(rng, c)
+				p.Rules = append([]ruleSpec{rs}, p.Rules...)
+				c.names = append(c.names, nameCand{rs, src})
+			}
+		default:
+			p.AllowedNets, p.AllowedASN = an, aa
+			if len(an) == 0 && len(aa) == 0 {
+				p.AllowedASN = genASNs(rng, 1)
+			}
+		}
+		p.Shape = shape
+		// name candidates of removed rules stay: they are boundary names of
+		// rules that no longer exist
+	}
 }
 
 func hasMappedNets(c *config) bool {
@@ -357,7 +404,7 @@ func withoutZeroLen(p profCfg) profCfg {
 	return q
 }
 
-func deliveryPhase(r *vkit.Run, sampled map[string]bool, attrMismatch *int) {
+func deliveryPhase(r *vkit.Run, scratch string, sampled map[string]bool, attrMismatch *int) {
 	l, err := net.Listen("tcp4", "127.0.0.1:0")
 	if err != nil {
 		r.Inconclusive("delivery: cannot listen: " + err.Error())
@@ -384,17 +431,36 @@ func deliveryPhase(r *vkit.Run, sampled map[string]bool, attrMismatch *int) {
 		return
 	}
 
-	nCfg := r.N(70, 1500)
+	nCfg := r.N(80, 1500)
 	nProbe := r.N(30, 40)
 	for ci := 0; ci < nCfg; ci++ {
 		rng := r.Rand("delivery", ci)
 		c := genConfig(rng, 1_000_000+ci)
 		addBoundaryNets(rng, c)
+		shapeSingleKind(rng, c)
+		for pi := range c.Profiles {
+			// "block these, but let a whole family through": a zero-length
+			// ALLOWED subnet that overrides blocked subnets / ASNs
+			p := &c.Profiles[pi]
+			if p.Empty || p.Shape != "" || len(p.BlockedNets)+len(p.BlockedASN) == 0 || rng.IntN(4) != 0 {
+				continue
+			}
+			q := netip.MustParsePrefix("0.0.0.0/0")
+			if (len(p.BlockedNets) > 0 && p.BlockedNets[0].Addr().Is6()) || (len(p.BlockedNets) == 0 && rng.IntN(2) == 0) {
+				q = netip.MustParsePrefix("::/0")
+			}
+			p.AllowedNets = append(p.AllowedNets, q)
+		}
 
-		db, err := profiledb.New(&profiledb.Config{
-			Logger: stack.Logger(), Storage: strg, ErrColl: ec, Metrics: profiledb.EmptyMetrics{},
-			CacheFilePath: "none", FullSyncIvl: 24 * time.Hour, FullSyncRetryIvl: 24 * time.Hour, ResponseSizeEstimate: datasize.KB,
-		})
+		cachePath := filepath.Join(scratch, fmt.Sprintf("c10-profiles-%d.pb", ci))
+		_ = os.Remove(cachePath)
+		newDB := func() (*profiledb.Default, error) {
+			return profiledb.New(&profiledb.Config{
+				Logger: stack.Logger(), Storage: strg, ErrColl: ec, Metrics: profiledb.EmptyMetrics{},
+				CacheFilePath: cachePath, FullSyncIvl: 24 * time.Hour, FullSyncRetryIvl: 24 * time.Hour, ResponseSizeEstimate: datasize.KB,
+			})
+		}
+		db, err := newDB()
 		if err != nil {
 			r.Inconclusive("delivery: profiledb.New: " + err.Error())
 			return
@@ -428,7 +494,7 @@ func deliveryPhase(r *vkit.Run, sampled map[string]bool, attrMismatch *int) {
 		}
 		r.Bucket("delivery_configs", 1)
 		e.bktPrefix = "delivery_"
-		e.tagKey = func(p *probe, v verdict) string {
+		tagKey := func(p *probe, v verdict) string {
 			if p.Prof < 0 || c.Profiles[p.Prof].Empty {
 				return ""
 			}
@@ -461,13 +527,86 @@ func deliveryPhase(r *vkit.Run, sampled map[string]bool, attrMismatch *int) {
 			}
 			return tag
 		}
+		e.tagKey = tagKey
 		msgID := uint16(3000 + ci)
 		e.hasMappedCIDR = hasMappedNets(c)
 		e.keySuffix = ":backend-delivered"
 		e.note = "delivery phase: profiles sent by a gRPC backend, converted by backendpb.ProfileStorage, stored by profiledb.Default (full synchronisation)"
 		compareDelivered(r, e, db, "access-config:delivered-differs")
+		// decided: for every profile, a few requests that this profile's
+		// settings decide (rejected, or let through by an allowlist entry)
+		decided := func(bp string) {
+			for pi := range c.Profiles {
+				// requests that this profile's settings decide
+				pc := &c.Profiles[pi]
+				src := fmt.Sprintf("p%d", pi)
+				nb, np := 0, 0
+				for _, ai := range rng.Perm(len(c.addrs)) {
+					ac := c.addrs[ai]
+					if ac.Src != src && ac.Src != "region" {
+						continue
+					}
+					c.ctr++
+					name, qt := fmt.Sprintf("r%d.neutral%d.example", c.ctr, c.Index), dns.TypeA
+					if len(pc.Rules) > 0 && (pc.Shape == "names-only" || rng.IntN(3) == 0) {
+						var rule *ruleSpec
+						name, _, rule = c.pickName(rng, src)
+						if rule != nil && rule.QT != 0 && !rule.Neg {
+							qt = rule.QT
+						}
+					}
+					v := c.judge(ac.A, name, qt, pi)
+					touched := v.PAlwNet || v.PAlwASN || v.PBlkNet || v.PBlkASN || v.PName
+					if v.GNet || v.GName || !touched || (v.Blocked && nb >= 4) || (!v.Blocked && np >= 4) {
+						continue
+					}
+					p := e.attributedProbe(rng, pi, ac, name, qt)
+					if v.Blocked {
+						nb++
+						r.Bucket(bp+"profile_rejected", 1)
+						if pc.Shape != "" {
+							r.Bucket(bp+"rejected_shape_"+pc.Shape, 1)
+						}
+					} else {
+						np++
+						if pc.Shape != "" {
+							r.Bucket(bp+"passed_shape_"+pc.Shape, 1)
+						}
+					}
+					checkProbe(r, e, p, &msgID, sampled, attrMismatch)
+				}
+			}
+		}
+		decided("delivery_full_")
 		for k := 0; k < nProbe; k++ {
 			checkProbe(r, e, e.genProbe(rng, k), &msgID, sampled, attrMismatch)
+		}
+
+		// restart: a second database instance on the same cache file (written
+		// by the full synchronisation), then an incremental synchronisation
+		// in which nothing changed
+		db, err = newDB()
+		_ = os.Remove(cachePath) // loaded; only a full synchronisation would write it again
+		if err != nil {
+			r.Inconclusive("delivery: profiledb.New on the cache file: " + err.Error())
+			return
+		}
+		if !sync(nil, false) {
+			continue
+		}
+		r.Bucket("delivery_restart_from_cache", 1)
+		e, err = buildEnv(c, db)
+		if err != nil {
+			r.Inconclusive("delivery: cannot rebuild the stack: " + err.Error())
+			return
+		}
+		e.bktPrefix, e.tagKey, e.hasMappedCIDR = "delivery_", tagKey, hasMappedNets(c)
+		e.keySuffix = ":after-restart-from-cache"
+		e.note = "delivery phase: second profiledb.Default instance loaded from the cache file that the full synchronisation stored, then an incremental synchronisation without changes"
+		compareDelivered(r, e, db, "access-config:lost-after-restart-from-cache")
+		decided("delivery_restart_")
+		for k := 0; k < nProbe/2; k++ {
+			checkProbe(r, e, e.genProbe(rng, 500+k), &msgID, sampled, attrMismatch)
 		}
 
 		// partial synchronisations
@@ -539,6 +678,12 @@ func deliveryPhase(r *vkit.Run, sampled map[string]bool, attrMismatch *int) {
 		}
 	}
 	r.Bucket("delivery_errcoll_reports", ec.n.Load())
+	r.Require("delivery_restart_from_cache", int64(nCfg))
+	r.Require("delivery_restart_profile_rejected", 150)
+	for _, k := range []string{"asn-blocks-only", "net-blocks-only", "names-only"} {
+		r.Require("delivery_restart_rejected_shape_"+k, 12)
+	}
+	r.Require("delivery_restart_passed_shape_allowlists-only", 12)
 
 	r.Require("delivery_configs", int64(nCfg))
 	r.Require("delivery_sync_full", int64(nCfg))
